@@ -190,7 +190,10 @@ def decode_x86(blobs, tmpdir=None):
                 continue
             addr = int(m.group(1), 16)
             n = len(m.group(2).split())
-            ins_at[addr] = ((m.group(3) or "").strip(), n)
+            # objdump appends "# 0x7" (resolved rip-relative address) and "<sym>" annotations
+            text = (m.group(3) or "").split("#")[0]
+            text = re.sub(r"<[^>]*>", "", text).strip()
+            ins_at[addr] = (text, n)
         for i, b in enumerate(blobs):
             if not b:
                 continue
